@@ -15,7 +15,8 @@ func init() {
 			"table is computed, start with the same number of elements and every statement list that appends to one appends to the other; (chunk-ids) the signature table maps the chunk-type constants, in iota order, to git's chunk ids " +
 			"OIDF OIDL CDAT GDA2 GDO2 EDGE BIDX BDAT BASE and the terminator to four zero bytes, four bytes each; (required-chunks) readChunkHeaders rejects a file that lacks the OIDF, OIDL or CDAT chunk and a table that does not end with the " +
 			"terminator; (parent-encoding) the parent-slot constants have git's values (none 0x70000000, extra-edges flag and last-edge flag 0x80000000, mask 0x7fffffff), are never reassigned and are used by both the encoder and the reader; " +
-			"(checksum-tee) NewEncoder uses the destination writer only inside io.MultiWriter together with the hasher whose sum encodeChecksum writes. Not decided: generation-number arithmetic, split chains, acceptance by git.",
+			"(checksum-tee) NewEncoder uses the destination writer only inside io.MultiWriter together with the hasher whose sum encodeChecksum writes. (position-spaces) in the methods of fileIndex no comparison mixes a global commit position (Index API arguments, parent slots and extra-edge entries read from the file) with a layer-local one (fanout counts) or a local one with the base count, " +
+			"record offsets are computed from local positions, and positions returned through the Index API are not local ones — the two spaces coincide for a single file and differ in every layer of a split chain above the base. Not decided: generation-number arithmetic, the chain file itself, acceptance by git.",
 		Assumptions: []string{},
 		Run:         runC51,
 	})
